@@ -596,4 +596,6 @@ def concrete(x, model):
         return type(x)(concrete(e, model) for e in x)
     if isinstance(x, dict):
         return {k: concrete(v, model) for k, v in x.items()}
+    if hasattr(x, "concrete_in"):
+        return x.concrete_in(model)
     return x
